@@ -154,20 +154,22 @@ func (ei *resourceInformer) createSharedInformer() error {
 
 // Snapshot returns all cached objects for this informer
 func (ei *resourceInformer) getCachedObjects() []kemtypes.ObjectAndFilterResult {
+	// Copy the cache and reset eventBuf in one critical section: an event buffered
+	// between the copy and the reset is not in the copy and must not be dropped.
+	ei.eventBufLock.Lock()
+	defer ei.eventBufLock.Unlock()
+
 	ei.cacheLock.RLock()
 	res := make([]kemtypes.ObjectAndFilterResult, 0)
 	for _, obj := range ei.cachedObjects {
 		res = append(res, *obj)
 	}
 	ei.cacheLock.RUnlock()
-	verifhook.At("ri.afterCopy", ei)
 
 	// Reset eventBuf if needed.
-	ei.eventBufLock.Lock()
 	if !ei.eventCbEnabled {
 		ei.eventBuf = nil
 	}
-	ei.eventBufLock.Unlock()
 	return res
 }
 
